@@ -33,7 +33,7 @@ package snapstate_test
 //
 // Unexported identifiers of the package's test files used: snapmgrBaseTest (+ fields
 // state, o, fakeBackend, fakeStore, user), fakeSnappyBackend.{ops,mu,maybeInjectErr,
-// linkSnapFailTrigger,copySnapDataFailTrigger,addSnapApp,infos}, fakeStore.refreshRevnos, fakeOp.
+// linkSnapFailTrigger,copySnapDataFailTrigger,ReadInfo}, fakeStore.refreshRevnos, fakeOp.
 
 import (
 	"context"
@@ -164,14 +164,23 @@ func newWorld(c *check.C, opts worldOpts) *world {
 		return worldBaseTime.Add(time.Duration(w.clock) * time.Second)
 	}))
 	w.fakeBackend.maybeInjectErr = w.backendHook
-	for _, name := range opts.AliasSnaps {
-		w.fakeBackend.addSnapApp(name, "cmd1")
-	}
 	if len(opts.AliasSnaps) > 0 {
 		alias := map[string]bool{}
 		for _, n := range opts.AliasSnaps {
 			alias[n] = true
 		}
+		// give those snaps an app.  (Not via fakeSnappyBackend.addSnapApp: that makes
+		// ReadInfo hand out one shared, mutated *snap.Info for all revisions.)
+		w.AddCleanup(snapstate.MockSnapReadInfo(func(name string, si *snap.SideInfo) (*snap.Info, error) {
+			info, err := w.fakeBackend.ReadInfo(name, si)
+			if err == nil && alias[name] {
+				if info.Apps == nil {
+					info.Apps = map[string]*snap.AppInfo{}
+				}
+				info.Apps["cmd1"] = &snap.AppInfo{Snap: info, Name: "cmd1"}
+			}
+			return info, err
+		}))
 		snapstate.AutoAliases = func(st *state.State, info *snap.Info) (map[string]string, error) {
 			if alias[info.InstanceName()] {
 				return map[string]string{info.InstanceName() + "-alias1": "cmd1"}, nil
